@@ -291,3 +291,51 @@ package fsm
 //@   loop 0 invariant response != nil && fresh(response) && !response.More && response.Count >= 0
 //@   loop 0 invariant !yield.stopped && yield.pairs + response.Count == i && yield.prevMore && (yield.nchunks > 0 ==> yield.lastMore)
 //@   loop 0 invariant *limit == 0 || i <= *limit
+
+// ---------------------------------------------------------------- deletes (C01, C12)
+
+// W as a byte-string value, and the upper bound hiB(e) a range end e stands for:
+// enc_1(e), or W for the '\0' wildcard.
+//@ uninterp func Wb() Bytes
+//@ axiom blen(Wb()) == 1024 && bat(Wb(), 0) == 1 && bat(Wb(), 1) == 0 && bat(Wb(), 2) == 0 && bat(Wb(), 3) == 0 && bat(Wb(), 4) == 2
+//@ axiom forall j Int :: 5 <= j && j < 1024 ==> bat(Wb(), j) == 0
+// order facts about W and the bookkeeping keys, justified by the machine-checked sequence lemmas
+// userBelowW / systemAboveW (lifting from sequences to byte-string values is extensionality)
+//@ axiom forall u Bytes :: blt(encK(1, u), Wb())
+//@ axiom blt(Wb(), IDX()) && blt(Wb(), LIDX())
+//@ axiom forall u Bytes :: blt(encK(1, u), IDX()) && blt(encK(1, u), LIDX())
+//@ pure func inRange(k Bytes, lo Bytes, hi Bytes) bool = !blt(k, lo) && blt(k, hi)
+
+// rangeLookup = first chunk of the iterate stream. ASSUMED closure-return schema: the function
+// returns iter.First of the lazily evaluated closure iterate$1, whose contract is proved; the step
+// from that contract to this one ("First returns the first yielded chunk") is not machine checked.
+//@ func rangeLookup
+//@   assumed
+//@   results resp, err
+//@   requires reader != nil && req != nil
+//@   ensures err == nil ==> resp != nil && fresh(resp) && resp.Count >= 0
+//@   ensures [C09.unary.more]  err == nil && req.Limit == 0 ==> resp.More == (resp.Count < cnt(reader.vP, encK(1, bytesOf(req.Key)), (isWildcard(req.RangeEnd) ? Wb() : encK(1, bytesOf(req.RangeEnd)))))
+//@   ensures [C09.unary.count] err == nil && req.Limit == 0 && !resp.More ==> resp.Count == cnt(reader.vP, encK(1, bytesOf(req.Key)), (isWildcard(req.RangeEnd) ? Wb() : encK(1, bytesOf(req.RangeEnd))))
+//@   ensures err == nil && !req.CountOnly ==> len(resp.Kvs) == resp.Count
+//@   ensures err == nil && req.CountOnly ==> len(resp.Kvs) == 0
+//@   ensures [C09.unary.countonly] err == nil && req.CountOnly && req.Limit == 0 ==> !resp.More      // a count-only response never grows, so it is never cut by size
+//@   modifies nothing
+
+// handleDelete: single key -> point removal; range -> exactly the keys of [enc(key), hiB(range_end))
+// disappear; nothing else changes (in particular no bookkeeping key: hiB <= W < IDX, LIDX). The
+// deleted count / previous pairs are those of the removed keys when requested.
+//@ func handleDelete
+//@   results resp, err
+//@   requires ctx != nil && del != nil && ctx.batch != nil && ctx.db != nil && ctx.batch.bdb == ctx.db && ctx.batch != ctx.db
+//@   before pebble.(*Batch).DeleteRange assert isW(end) ==> bytesOf(end) == Wb()
+//@   ensures [C01.del.single] err == nil && isNilSlice(del.RangeEnd) ==> forall k Bytes :: ctx.batch.vP[k] == (k == encK(1, bytesOf(del.Key)) ? false : old(ctx.batch.vP[k]))
+//@   ensures [C01.del.range]  err == nil && !isNilSlice(del.RangeEnd) ==> forall k Bytes :: ctx.batch.vP[k] == (inRange(k, encK(1, bytesOf(del.Key)), (isWildcard(del.RangeEnd) ? Wb() : encK(1, bytesOf(del.RangeEnd)))) ? false : old(ctx.batch.vP[k]))
+//@   ensures [C01.del.values] err == nil ==> forall k Bytes :: ctx.batch.vP[k] ==> ctx.batch.vV[k] == old(ctx.batch.vV[k])
+//@   ensures [C01.del.count1] err == nil && isNilSlice(del.RangeEnd) && (del.Count || del.PrevKv) ==> resp != nil && resp.Deleted == (old(ctx.batch.vP[encK(1, bytesOf(del.Key))]) ? 1 : 0)
+//@   ensures [C01.del.countN] err == nil && !isNilSlice(del.RangeEnd) && del.Count && !del.PrevKv ==> resp != nil && resp.Deleted == cnt(old(ctx.batch.vP), encK(1, bytesOf(del.Key)), (isWildcard(del.RangeEnd) ? Wb() : encK(1, bytesOf(del.RangeEnd))))
+//@   ensures [C01.del.prevN]  err == nil && !isNilSlice(del.RangeEnd) && del.PrevKv ==> resp != nil && resp.Deleted == cnt(old(ctx.batch.vP), encK(1, bytesOf(del.Key)), (isWildcard(del.RangeEnd) ? Wb() : encK(1, bytesOf(del.RangeEnd)))) && len(resp.PrevKvs) == resp.Deleted
+//@   ensures [C01.del.nocount] err == nil && !(del.Count || del.PrevKv) ==> resp != nil && resp.Deleted == 0 && len(resp.PrevKvs) == 0
+//@   ensures [C01.del.book]   err == nil ==> bookSame(ctx.batch.vP, ctx.batch.vV, old(ctx.batch.vP), old(ctx.batch.vV))
+//@   ensures ctx.index == old(ctx.index) && ctx.leaderIndex == old(ctx.leaderIndex) && ctx.db == old(ctx.db)
+//@   ensures (ctx.batch == old(ctx.batch) || fresh(ctx.batch)) && ctx.batch != ctx.db && (err == nil ==> ctx.batch != nil && ctx.batch.bdb == ctx.db)
+//@   modifies ctx.batch, ctx.batch.vP, ctx.batch.vV
